@@ -20,6 +20,7 @@ static std::vector<std::string> g_events;
 static std::atomic<long> g_ticket{0};
 static unsigned long long g_seed = 1;
 static long g_crit_sleep_us = 2000, g_read_sleep_us = 600;
+static long g_reverse_step_us = 0, g_ncells = 0;      // adversarial schedule: cell i starts (n - i) steps late, so that later cells complete first
 static thread_local long tl_index = -1;
 static thread_local long tl_draws = 0;
 
@@ -38,6 +39,7 @@ static void on_yield(const char* site, long idx) {
     const unsigned long long h = mix(g_seed * 1315423911ULL + (unsigned long long)idx * 2654435761ULL + (site[4] == 'i' ? 17 : 3));
     const long us = !std::strcmp(site, "div_in_crit") ? g_crit_sleep_us : (long)(h % (unsigned long long)(g_read_sleep_us + 1));
     if (us > 0) std::this_thread::sleep_for(std::chrono::microseconds(us));
+    if (g_reverse_step_us > 0 && !std::strcmp(site, "div_before_read")) std::this_thread::sleep_for(std::chrono::microseconds(g_reverse_step_us * std::max(0L, g_ncells - idx)));
 }
 // random generators are seeded per cell so that a cell divides the same way whatever thread handles it
 static unsigned long long on_seed(const char* site) { return mix(g_seed + 1000003ULL * (unsigned long long)(tl_index + 1) + 101ULL * (unsigned long long)(tl_draws++) + (unsigned long long)site[0]); }
@@ -104,6 +106,8 @@ int main(int argc, char** argv) {
         omp_set_num_threads(threads);
         if (S.has("crit_sleep_us")) g_crit_sleep_us = S["crit_sleep_us"].i();
         if (S.has("read_sleep_us")) g_read_sleep_us = S["read_sleep_us"].i();
+        g_reverse_step_us = S.has("reverse_step_us") ? S["reverse_step_us"].i() : 0;
+        g_ncells = S["n"].i();
         verif::hooks().event = on_event;
         verif::hooks().yield = on_yield;
         cell_divider::run(L, lmin, lmr, next, false);
